@@ -89,11 +89,44 @@ def layout_helpers(prog):
         ins = f.get("inputs") or []
         if g == k or f.get("kind") == "Closure" or len(ins) != 3 or ins[1] != "&str" or not (f.get("output") or "").startswith("std::option::Option<std::string::String>"):
             continue
-        if ins[2] == "bool":
-            numpad = g
-        else:
+        # the keyed helper takes the table function's own modifier parameter; the keypad helper takes the keypad switch
+        # (the bool itself, or a private type made from it)
+        if ins[2] == (prog.fns[k].get("inputs") or [None] * 3)[2]:
             keyed = g
+        else:
+            numpad = g
     return keyed, numpad
+
+
+def encoded_switch(prog, alt_rows, argno):
+    """The helper's third argument as a function of the table function's bool parameter `argno`, when it is passed re-coded
+    as a private two-variant field-less enum: (adt, variant index when the bool is true, variant index when false); else None."""
+    enc = {}
+    adt = None
+    for r in alt_rows:
+        th = r.get("third")
+        if th is None or th.k != "agg" or th.a[1] or not isinstance(th.t, dict) or "vidx" not in th.t:
+            return None
+        if adt is not None and th.t.get("adt") != adt:
+            return None
+        adt = th.t.get("adt")
+        val = None
+        for (ds, vals) in r.get("other", []):
+            if ds.k == "arg" and ds.a[0] == argno:
+                allv = r["other_allv"].get(id(ds), ())
+                if vals == (0,):
+                    val = False
+                elif vals == (1,) or (vals == "otherwise" and tuple(allv) == (0,)):
+                    val = True
+                elif vals == "otherwise" and tuple(allv) == (1,):
+                    val = False
+        if val is None or (val in enc and enc[val] != th.t["vidx"]):
+            return None
+        enc[val] = th.t["vidx"]
+    nvar = len((prog.adts.get(adt) or {}).get("variants", []))
+    if set(enc) != {True, False} or enc[True] == enc[False]:
+        return None
+    return (adt, enc[True], enc[False], nvar)
 
 
 def layout_table(prog):
@@ -111,6 +144,7 @@ def layout_table(prog):
     except PathLimit as e:
         raise AnchorError("key→layout-entry table: cannot enumerate paths (%s)" % e)
     rows = {}
+    alts = {}           # key code -> every path's row (a key has several when the arm's arguments depend on another parameter)
     default = None
     universe = set(range(0x10000))
     for path, env, conds in paths:
@@ -203,11 +237,14 @@ def layout_table(prog):
             if default is None or (v is not None and v.k == "agg"):
                 default = val
             continue
+        row["other_allv"] = other_allv
         for kc in keys:
+            alts.setdefault(kc, []).append(row)
             if kc in rows and rows[kc].get("literal") != row.get("literal"):
                 rows[kc] = {"bb": row["bb"], "val": None, "conflict": True}
             else:
                 rows[kc] = row
+    prog._layout_alts = alts
     prog._layout_table = (k, rows, default)
     return prog._layout_table
 
